@@ -1,6 +1,7 @@
 import DhcpProofs.Lemmas.V4ValSetGet
 import DhcpProofs.Lemmas.V4ValSetGet2
 import DhcpProofs.Lemmas.V4ValLabel
+import DhcpProofs.Lemmas.V4ValDecoded
 /-
   C17 — DHCPv4 typed accessors agree with the raw option bytes.
   Property theorems only; helper lemmas live in DhcpProofs/Lemmas/V4Val*.lean.
@@ -651,6 +652,244 @@ example : Acc.domainSearch (GOpts.empty.update 119
 /-- … and a label running past the end is not -/
 example : Acc.domainSearch (GOpts.empty.update 119 (some [3, 97, 98])) = .ok none := by decide
 example : Spec.Name.ValidNames [[97, 46, 98], [99]] := by decide
+
+/-! ## decoded packets
+
+The theorems above are about the `Options` map with the nil-ness of its values
+(`GOpts`).  A packet that came out of `dhcpv4.FromBytes` (`dec4 q = .ok p`) has
+such a map, `g` with `decOptsG q = some g` (the option loop re-run with Go's
+`append` on possibly nil slices).  `C17_decoded_options` says what it is in
+terms of the model packet `p`, whose `Opts` identify nil and empty values:
+`g = p.opts.toG` — a key all of whose instances were zero-length (`[code, 0]`
+on the wire) holds a NIL slice, so the accessors see it as ABSENT; every other
+key holds its non-empty (RFC 3396-concatenated) value; an empty non-nil value
+never comes out of the decoder.  The theorems after it lift the accessor
+statements to `p`: for seven of the nine accessor families the zero-length value
+is malformed for the type and the absent default equals the malformed default,
+so nothing changes; for the parameter request list and the relay agent
+information the RFC reading of the empty value (empty list / empty map) is NOT
+what the accessor returns on a decoded packet (nil): stated as `_empty` clauses. -/
+
+/-- **C17 (link to decoded packets).** -/
+theorem C17_decoded_options (q : Bytes) (p : Pkt4) (h : dec4 q = .ok p) :
+    decOptsG q = some p.opts.toG ∧
+    (∀ c, p.opts.f c = none ∨ p.opts.f c = some [] → p.opts.toG.get c = none) ∧
+    (∀ c v, p.opts.f c = some v → v ≠ [] → p.opts.toG.get c = some v) ∧
+    (∀ c, p.opts.toG.f c ≠ some (some [])) :=
+  ⟨decOptsG_of_dec4 h, fun _ hc => Opts.toG_get_none hc, fun _ _ hv hne => Opts.toG_get_some hv hne,
+    fun c => Opts.toG_no_empty _ c⟩
+
+/-- single address (server identifier) on a decoded packet -/
+theorem C17_decoded_ServerIdentifier (q : Bytes) (p : Pkt4) (g : GOpts) (h : dec4 q = .ok p)
+    (hg : decOptsG q = some g) :
+    (∀ v x, p.opts.f Code.serverIdentifier = some v → Val4.ip v = some x → Acc.serverIdentifier g = some x) ∧
+    (∀ v, p.opts.f Code.serverIdentifier = some v → Val4.ip v = none → Acc.serverIdentifier g = none) ∧
+    (p.opts.f Code.serverIdentifier = none → Acc.serverIdentifier g = none) := by
+  rw [decOptsG_of_dec4 h] at hg; cases hg
+  refine ⟨fun v x hv hs => ?_, fun v hv hs => ?_, fun hn => ?_⟩
+  · have hne : v ≠ [] := by intro e; subst e; simp [Val4.ip] at hs
+    exact C17_ServerIdentifier_wf _ v x (Opts.toG_get_some hv hne) hs
+  · by_cases hne : v = []
+    · subst hne; exact C17_ServerIdentifier_absent _ (Opts.toG_get_none (.inr hv))
+    · exact C17_ServerIdentifier_bad _ v (Opts.toG_get_some hv hne) hs
+  · exact C17_ServerIdentifier_absent _ (Opts.toG_get_none (.inl hn))
+
+/-- address list (routers) on a decoded packet -/
+theorem C17_decoded_Router (q : Bytes) (p : Pkt4) (g : GOpts) (h : dec4 q = .ok p)
+    (hg : decOptsG q = some g) :
+    (∀ v xs, p.opts.f Code.router = some v → Val4.ips v = some xs → Acc.router g = some (xs.map some)) ∧
+    (∀ v, p.opts.f Code.router = some v → Val4.ips v = none → Acc.router g = none) ∧
+    (p.opts.f Code.router = none → Acc.router g = none) := by
+  rw [decOptsG_of_dec4 h] at hg; cases hg
+  refine ⟨fun v xs hv hs => ?_, fun v hv hs => ?_, fun hn => ?_⟩
+  · have hne : v ≠ [] := by intro e; subst e; simp [Val4.ips] at hs
+    exact C17_Router_wf _ v xs (Opts.toG_get_some hv hne) hs
+  · by_cases hne : v = []
+    · subst hne; exact C17_Router_absent _ (Opts.toG_get_none (.inr hv))
+    · exact C17_Router_bad _ v (Opts.toG_get_some hv hne) hs
+  · exact C17_Router_absent _ (Opts.toG_get_none (.inl hn))
+
+/-- string (domain name, trailing NULs deleted) on a decoded packet: the
+zero-length option reads as "" like the absent one -/
+theorem C17_decoded_DomainName (q : Bytes) (p : Pkt4) (g : GOpts) (h : dec4 q = .ok p)
+    (hg : decOptsG q = some g) :
+    (∀ v x, p.opts.f Code.domainName = some v → Val4.strTrim v = some x → Acc.domainName g = x) ∧
+    (p.opts.f Code.domainName = none → Acc.domainName g = []) := by
+  rw [decOptsG_of_dec4 h] at hg; cases hg
+  refine ⟨fun v x hv hs => ?_, fun hn => ?_⟩
+  · by_cases hne : v = []
+    · subst hne
+      have hx : x = [] := by
+        have : Val4.strTrim [] = some [] := by decide
+        rw [this] at hs; cases hs; rfl
+      rw [hx]; exact C17_DomainName_absent _ (Opts.toG_get_none (.inr hv))
+    · exact C17_DomainName_wf _ v x (Opts.toG_get_some hv hne) hs
+  · exact C17_DomainName_absent _ (Opts.toG_get_none (.inl hn))
+
+/-- duration (lease time) on a decoded packet -/
+theorem C17_decoded_IPAddressLeaseTime (q : Bytes) (p : Pkt4) (g : GOpts) (dflt : Int)
+    (h : dec4 q = .ok p) (hg : decOptsG q = some g) :
+    (∀ v x, p.opts.f Code.ipAddressLeaseTime = some v → Val4.seconds v = some x →
+      Acc.ipAddressLeaseTime g dflt = x) ∧
+    (∀ v, p.opts.f Code.ipAddressLeaseTime = some v → Val4.seconds v = none →
+      Acc.ipAddressLeaseTime g dflt = dflt) ∧
+    (p.opts.f Code.ipAddressLeaseTime = none → Acc.ipAddressLeaseTime g dflt = dflt) := by
+  rw [decOptsG_of_dec4 h] at hg; cases hg
+  refine ⟨fun v x hv hs => ?_, fun v hv hs => ?_, fun hn => ?_⟩
+  · have hne : v ≠ [] := by intro e; subst e; simp [Val4.seconds, Val4.u32] at hs
+    exact C17_IPAddressLeaseTime_wf _ v x dflt (Opts.toG_get_some hv hne) hs
+  · by_cases hne : v = []
+    · subst hne; exact C17_IPAddressLeaseTime_absent _ dflt (Opts.toG_get_none (.inr hv))
+    · exact C17_IPAddressLeaseTime_bad _ v dflt (Opts.toG_get_some hv hne) hs
+  · exact C17_IPAddressLeaseTime_absent _ dflt (Opts.toG_get_none (.inl hn))
+
+/-- message type on a decoded packet -/
+theorem C17_decoded_MessageType (q : Bytes) (p : Pkt4) (g : GOpts) (h : dec4 q = .ok p)
+    (hg : decOptsG q = some g) :
+    (∀ v x, p.opts.f Code.messageType = some v → Val4.u8 v = some x → Acc.messageType g = x) ∧
+    (∀ v, p.opts.f Code.messageType = some v → Val4.u8 v = none → Acc.messageType g = 0) ∧
+    (p.opts.f Code.messageType = none → Acc.messageType g = 0) := by
+  rw [decOptsG_of_dec4 h] at hg; cases hg
+  refine ⟨fun v x hv hs => ?_, fun v hv hs => ?_, fun hn => ?_⟩
+  · have hne : v ≠ [] := by intro e; subst e; simp [Val4.u8] at hs
+    exact C17_MessageType_wf _ v x (Opts.toG_get_some hv hne) hs
+  · by_cases hne : v = []
+    · subst hne; exact C17_MessageType_absent _ (Opts.toG_get_none (.inr hv))
+    · exact C17_MessageType_bad _ v (Opts.toG_get_some hv hne) hs
+  · exact C17_MessageType_absent _ (Opts.toG_get_none (.inl hn))
+
+/-- classless static routes on a decoded packet -/
+theorem C17_decoded_ClasslessStaticRoute (q : Bytes) (p : Pkt4) (g : GOpts) (h : dec4 q = .ok p)
+    (hg : decOptsG q = some g) :
+    (∀ v xs, p.opts.f Code.classlessStaticRoute = some v → Val4.routes v = some xs →
+      Acc.classlessStaticRoute g = some (xs.map ofSpecRoute)) ∧
+    (∀ v, p.opts.f Code.classlessStaticRoute = some v → Val4.routes v = none →
+      Acc.classlessStaticRoute g = none) ∧
+    (p.opts.f Code.classlessStaticRoute = none → Acc.classlessStaticRoute g = none) := by
+  rw [decOptsG_of_dec4 h] at hg; cases hg
+  refine ⟨fun v xs hv hs => ?_, fun v hv hs => ?_, fun hn => ?_⟩
+  · have hne : v ≠ [] := by intro e; subst e; simp [Val4.routes] at hs
+    exact C17_ClasslessStaticRoute_wf _ v xs (Opts.toG_get_some hv hne) hs
+  · by_cases hne : v = []
+    · subst hne; exact C17_ClasslessStaticRoute_absent _ (Opts.toG_get_none (.inr hv))
+    · exact C17_ClasslessStaticRoute_bad _ v (Opts.toG_get_some hv hne) hs
+  · exact C17_ClasslessStaticRoute_absent _ (Opts.toG_get_none (.inl hn))
+
+/-- relay agent information on a decoded packet (against the options-field
+grammar the accessor implements, `C17_RelayAgentInfo_padend_*`): a NON-EMPTY
+value reads as its sub-option map or nil; the zero-length option 82 reads as
+nil, NOT as the empty map the grammar gives the empty value -/
+theorem C17_decoded_RelayAgentInfo (q : Bytes) (p : Pkt4) (g : GOpts) (h : dec4 q = .ok p)
+    (hg : decOptsG q = some g) :
+    (∀ v m, p.opts.f Code.relayAgentInfo = some v → v ≠ [] → Val4.relayPadEnd v = some m →
+      Acc.relayAgentInfo g = some ⟨m⟩) ∧
+    (∀ v, p.opts.f Code.relayAgentInfo = some v → Val4.relayPadEnd v = none →
+      Acc.relayAgentInfo g = none) ∧
+    (p.opts.f Code.relayAgentInfo = some [] → Acc.relayAgentInfo g = none) ∧
+    (p.opts.f Code.relayAgentInfo = none → Acc.relayAgentInfo g = none) := by
+  rw [decOptsG_of_dec4 h] at hg; cases hg
+  refine ⟨fun v m hv hne hs => ?_, fun v hv hs => ?_, fun he => ?_, fun hn => ?_⟩
+  · exact C17_RelayAgentInfo_padend_wf _ v m (Opts.toG_get_some hv hne) hs
+  · by_cases hne : v = []
+    · subst hne; exact C17_RelayAgentInfo_absent _ (Opts.toG_get_none (.inr hv))
+    · exact C17_RelayAgentInfo_padend_bad _ v (Opts.toG_get_some hv hne) hs
+  · exact C17_RelayAgentInfo_absent _ (Opts.toG_get_none (.inr he))
+  · exact C17_RelayAgentInfo_absent _ (Opts.toG_get_none (.inl hn))
+
+/-- parameter request list on a decoded packet: a non-empty value reads as its
+codes; the zero-length option 55 reads as nil, NOT as the empty list -/
+theorem C17_decoded_ParameterRequestList (q : Bytes) (p : Pkt4) (g : GOpts) (h : dec4 q = .ok p)
+    (hg : decOptsG q = some g) :
+    (∀ v xs, p.opts.f Code.parameterRequestList = some v → v ≠ [] → Val4.codes v = some xs →
+      Acc.parameterRequestList g = some xs) ∧
+    (p.opts.f Code.parameterRequestList = some [] → Acc.parameterRequestList g = none) ∧
+    (p.opts.f Code.parameterRequestList = none → Acc.parameterRequestList g = none) := by
+  rw [decOptsG_of_dec4 h] at hg; cases hg
+  refine ⟨fun v xs hv hne hs => ?_, fun he => ?_, fun hn => ?_⟩
+  · exact C17_ParameterRequestList_wf _ v xs (Opts.toG_get_some hv hne) hs
+  · exact C17_ParameterRequestList_absent _ (Opts.toG_get_none (.inr he))
+  · exact C17_ParameterRequestList_absent _ (Opts.toG_get_none (.inl hn))
+
+/-- the distinction is real: the same empty value under key 55 / 82 reads as the
+empty list / map when it is an empty NON-nil slice (only a caller can put one
+there), and as nil when it came through the decoder -/
+example : Acc.parameterRequestList (GOpts.empty.update 55 (some [])) = some [] ∧
+    Acc.parameterRequestList (Opts.toG ⟨fun c => if c = 55 then some [] else none⟩) = none := by
+  constructor <;> decide
+
+/-! ## set/get with addresses in their 16-byte IPv4-mapped form
+
+`net.IPv4(a,b,c,d)`, `net.ParseIP("a.b.c.d")` and `ip.To16()` give the 16-byte
+form `00×10 ff ff a b c d`.  Every constructor writes `To4()` of what it is
+given (`IP.ToBytes`, `IPs.ToBytes`, `Route.Marshal`), so reading back returns
+the 4-byte form.  The address-list theorems above (`C17_set_get_Router` …)
+already quantify over every address with a 4-byte form; `_ipv4` spells the
+mapped case out.  For routes `C17_set_get_ClasslessStaticRoute_mapped` extends
+the domain from 4-byte destinations/routers to every form `To4` accepts. -/
+
+theorem C17_to4_ipv4 (a b c d : UInt8) :
+    to4 (ipv4 a b c d) = some [a, b, c, d] ∧ to4 [a, b, c, d] = some [a, b, c, d] ∧
+    (ipv4 a b c d).length = 16 :=
+  ⟨to4_ipv4 a b c d, by simp [to4], by simp [ipv4, zeros]⟩
+
+/-- `OptServerIdentifier(net.IPv4(a,b,c,d))` reads back as the 4-byte address -/
+theorem C17_set_get_ServerIdentifier_ipv4 (o : GOpts) (a b c d : UInt8) :
+    Acc.serverIdentifier (o.update Code.serverIdentifier (ipToBytes (some (ipv4 a b c d)))) =
+      some [a, b, c, d] :=
+  C17_set_get_ServerIdentifier o _ _ (to4_ipv4 a b c d)
+
+/-- `OptRouter(net.IPv4(…), …)` (any non-empty list of mapped addresses) reads
+back as the list of 4-byte addresses, in order -/
+theorem C17_set_get_Router_ipv4 (o : GOpts) (qs : List (UInt8 × UInt8 × UInt8 × UInt8)) (hne : qs ≠ []) :
+    Acc.router (o.update Code.router
+        (ipsToBytes (qs.map (fun q => some (ipv4 q.1 q.2.1 q.2.2.1 q.2.2.2))))) =
+      some (qs.map (fun q => some [q.1, q.2.1, q.2.2.1, q.2.2.2])) := by
+  have hne' : qs.map (fun q => ipv4 q.1 q.2.1 q.2.2.1 q.2.2.2) ≠ [] := by simpa using hne
+  have := C17_set_get_Router o (qs.map (fun q => ipv4 q.1 q.2.1 q.2.2.1 q.2.2.2)) hne' (by
+    intro b hb
+    obtain ⟨q, _, rfl⟩ := List.mem_map.mp hb
+    simp [to4_ipv4])
+  simp only [List.map_map] at this
+  rw [show (qs.map (fun q => some (ipv4 q.1 q.2.1 q.2.2.1 q.2.2.2))) =
+      qs.map (some ∘ fun q => ipv4 q.1 q.2.1 q.2.2.1 q.2.2.2) from rfl, this]
+  simp [to4_ipv4]
+
+/-- `OptDNS` likewise (the other two address-list constructors share `getIPs_set_get`) -/
+theorem C17_set_get_DNS_ipv4 (o : GOpts) (qs : List (UInt8 × UInt8 × UInt8 × UInt8)) (hne : qs ≠ []) :
+    Acc.dns (o.update Code.dns
+        (ipsToBytes (qs.map (fun q => some (ipv4 q.1 q.2.1 q.2.2.1 q.2.2.2))))) =
+      some (qs.map (fun q => some [q.1, q.2.1, q.2.2.1, q.2.2.2])) := by
+  have hne' : qs.map (fun q => ipv4 q.1 q.2.1 q.2.2.1 q.2.2.2) ≠ [] := by simpa using hne
+  have := C17_set_get_DNS o (qs.map (fun q => ipv4 q.1 q.2.1 q.2.2.1 q.2.2.2)) hne' (by
+    intro b hb
+    obtain ⟨q, _, rfl⟩ := List.mem_map.mp hb
+    simp [to4_ipv4])
+  simp only [List.map_map] at this
+  rw [show (qs.map (fun q => some (ipv4 q.1 q.2.1 q.2.2.1 q.2.2.2))) =
+      qs.map (some ∘ fun q => ipv4 q.1 q.2.1 q.2.2.1 q.2.2.2) from rfl, this]
+  simp [to4_ipv4]
+
+/-- `OptClasslessStaticRoute(routes...)` for a non-empty list of routes whose
+destination and router are given in ANY form with a 4-byte form (4-byte, or
+16-byte IPv4-mapped), `CIDRMask(width ≤ 32, 32)`, no destination octet of the
+4-byte form set beyond the significant ones: marshalling does not panic and
+each route reads back with destination and router in their 4-byte form
+(`RouteArg.read`), in order. -/
+theorem C17_set_get_ClasslessStaticRoute_mapped (o : GOpts) (as : List RouteArg) (hne : as ≠ [])
+    (hd : ∀ a ∈ as, RouteArgOK a) :
+    ∃ raw, routesToBytes as = .ok raw ∧
+      Acc.classlessStaticRoute (o.update Code.classlessStaticRoute raw) = some (as.map RouteArg.read) :=
+  routes_set_get_mapped o as hne hd
+
+/-- the case of seed C17-6: 10.1.2.0/24 via 192.168.0.1, both as `net.IPv4(…)` -/
+example : RouteArgOK ⟨some (ipv4 10 1 2 0), 24, some (ipv4 192 168 0 1)⟩ ∧
+    RouteArg.read ⟨some (ipv4 10 1 2 0), 24, some (ipv4 192 168 0 1)⟩ =
+      ⟨[10, 1, 2, 0], 24, some [192, 168, 0, 1]⟩ := by
+  refine ⟨⟨⟨_, _, rfl, to4_ipv4 ..⟩, by decide, ⟨_, _, rfl, to4_ipv4 ..⟩, by decide⟩, by decide⟩
+
+/-- a 16-byte address that is NOT IPv4-mapped has no 4-byte form: with a
+non-zero prefix length `Route.Marshal` panics (`To4()` is nil and is sliced) -/
+example : routeMarshal ⟨some (List.replicate 16 1), 24, some [192, 168, 0, 1]⟩ = .panic := by decide
 
 /-! ## "never a partial or misaligned value", in one statement per family:
 whatever the raw value, the result is either the spec's value or the default -/
